@@ -729,6 +729,25 @@ func checkC02Layout(c *Check, p *Program) {
 		c.Fail("C02.layout", "knxnet.UnpackHeader", "", "not found")
 	}
 	checkOffsetLoopDecoders(c, p, "C02.tlv")
+	// a decoder fills its receiver: with a value receiver it fills a copy and the caller's value stays empty
+	nRecv := 0
+	for _, nt := range p.allNamedTypes() {
+		pth := nt.Obj().Pkg().Path()
+		if pth != knxnetPath && pth != cemiPath {
+			continue
+		}
+		for i := 0; i < nt.NumMethods(); i++ {
+			m := nt.Method(i)
+			sig, ok := m.Type().(*types.Signature)
+			if !ok || m.Name() != "Unpack" || sig.Recv() == nil || sig.Params().Len() != 1 || !isByteSlice(sig.Params().At(0).Type()) {
+				continue
+			}
+			nRecv++
+			_, isPtr := sig.Recv().Type().(*types.Pointer)
+			c.Decide(isPtr, "C02.layout", typeName(nt)+".Unpack has a pointer receiver", p.Pos(m.Pos()), "decodes into the caller's value", "Unpack has a value receiver: it decodes into a copy, the caller's value keeps what it held (nothing, for a fresh one)")
+		}
+	}
+	c.Floor("C02.layout", "Unpack methods of frame types", nRecv, 20)
 	// byte-copy types: Pack is copy(buffer, X), Unpack copies the whole input into the same X
 	nCopy := 0
 	for _, pt := range declaredPackTypes(p) {
